@@ -361,7 +361,7 @@ pub fn check_readonly(case: &ReadOnlyCase, info: &mut CaseInfo) -> Result<(), Fa
 pub fn run(ctx: &Ctx, rep: &mut Report) {
     let (n_a, n_r) = match ctx.tier {
         Tier::Quick => (320, 320),
-        Tier::Thorough => (1_000, 1_000),
+        Tier::Thorough => (6_000, 6_000),
     };
     run_prop(ctx, rep, "authz", authz_strategy(), n_a, 60, check_authz);
     run_prop(ctx, rep, "read-only", readonly_strategy(), n_r, 60, check_readonly);
